@@ -50,6 +50,9 @@ func (t *tw) hexb(b []byte) { t.a(hx.Hex(b)) }
 func (t *tw) obox(b mp4.Box) {
 	var buf bytes.Buffer
 	var err error
+	// Size() as it is BEFORE this box has ever been encoded: the model assumes an opaque box to be stateless and
+	// the driver reports a box whose Encode writes something else than this Size() / a different size field
+	size0 := b.Size()
 	p := hx.Try(func() { err = b.Encode(&buf) })
 	if p != "" {
 		panic(unsupported{"opaque box panics in Encode: " + b.Type()})
@@ -59,7 +62,7 @@ func (t *tw) obox(b mp4.Box) {
 		ty = append(ty, ' ')
 	}
 	t.a("O", hex.EncodeToString(ty[:4]))
-	t.u(b.Size())
+	t.u(size0)
 	if err != nil {
 		t.a("-")
 	} else {
@@ -793,11 +796,16 @@ func cmdCorr(seed uint64, n int, repo string) {
 			emitCase(fmt.Sprintf("g%d", i), "frag", func(t *tw) { t.frag(f) }, fragAgg(f), genOps(r))
 		case 5, 6:
 			s := genSegment(r, wild)
+			if r.Intn(3) == 0 {
+				mutateWidths(r, segRoots(s), r.Range(1, 3))
+			}
 			emitCase(fmt.Sprintf("g%d", i), "seg", func(t *tw) { t.seg(s) }, segAgg(s), genOps(r))
 		default:
 			// a file: init segment + segments, encoded and decoded again, or assembled through the API
-			init := mp4.CreateEmptyInit()
-			init.AddEmptyTrack(uint32(r.Pick(90000, 48000)), []string{"video", "audio"}[r.Intn(2)], "und")
+			init := richInit(r)
+			if r.Bool() {
+				mutateWidths(r, init.Children, r.Range(1, 4))
+			}
 			emitCase(fmt.Sprintf("g%di", i), "init", func(t *tw) { t.init(init) }, initAgg(init), genOps(r))
 			f := mp4.NewFile()
 			pos := uint64(0)
@@ -832,6 +840,10 @@ func cmdCorr(seed uint64, n int, repo string) {
 				}
 				if opt {
 					f.EncOptimize = mp4.OptimizeTrun
+				}
+				if v == 3 || v == 0 && fi%2 == 1 {
+					// what an application does between decode and encode (the same edits on every decode)
+					mutateWidths(hx.NewRng(seed*1000003+uint64(fi)*31+uint64(v)), f.Children, 3)
 				}
 				return f
 			}
